@@ -32,7 +32,7 @@ C == INSTANCE Config
 SettingsOf(b) == [modeKey |-> IF b.modeBogus THEN "bogus" ELSE IF b.mode = "first_match" THEN "absent" ELSE b.mode,
                   mfKey |-> b.rules = "rules", mfFile |-> b.rules = "rules" /\ ~b.mfMissing,
                   csvFile |-> b.rules = "csv" \/ (b.rules = "rules" /\ b.mfMissing),
-                  vfKey |-> b.views, vfFile |-> b.vf, cur |-> b.cur, year |-> b.year, out |-> b.out]
+                  vfKey |-> b.views, vfFile |-> b.vf, cur |-> b.cur, year |-> b.year, out |-> b.out, removed |-> b.removed]
 Eff(b) == C!Effective(SettingsOf(b))
 
 \* ---- rows available to sources (ids into the Rows vocabulary) ---------------
@@ -89,10 +89,12 @@ TruthOf(t, suppVisible, stripped) ==
 
 \* one classified transaction
 \* (two sources may carry the same NAME - one account exported as two files; they stay two sources)
-Classified(b, s, t) ==
+\* migrated: the run that converts the legacy CSV to merchants.rules (`tally up --migrate`) classifies with the NEW file -
+\* the same rules in the same order, now read under the configured rule mode
+ClassifiedG(b, s, t, migrated) ==
   \* rule_mode is a property of .rules files: the legacy CSV loop is always first-match
   LET cfg == Eff(b)
-      f == RulesFile(IF cfg.rules = "csv" THEN "first_match" ELSE cfg.mode, cfg.rules)
+      f == RulesFile(IF cfg.rules = "csv" /\ ~migrated THEN "first_match" ELSE cfg.mode, cfg.rules)
       c == E!Classify(f, [v |-> TruthOf(t, b.supp, b.xform /\ cfg.rules = "rules"), dyn |-> "val"]) IN
   [src |-> s.name, desc |-> t.desc[1], date |-> t.date, cents |-> t.cents,
    rule |-> IF c.win = 0 THEN 0 ELSE f.rules[c.win].id, cat |-> c.cat, sub |-> c.sub, tags |-> c.tags,
@@ -100,14 +102,18 @@ Classified(b, s, t) ==
    mer |-> IF c.win = 0 THEN <<"unknown", t.desc[1]>>
            ELSE <<"rule", IF f.rules[c.win].id = 8 THEN 7 ELSE f.rules[c.win].id>>]
 
+Classified(b, s, t) == ClassifiedG(b, s, t, FALSE)
+
 Counted(b) == {i \in 1..Len(b.sources) : b.sources[i].status = "present"}
-RECURSIVE Concat(_, _, _)
-Concat(b, i, acc) ==
+RECURSIVE Concat(_, _, _, _)
+Concat(b, i, acc, migrated) ==
   IF i > Len(b.sources) THEN acc
-  ELSE IF b.sources[i].status # "present" THEN Concat(b, i + 1, acc)
+  ELSE IF b.sources[i].status # "present" THEN Concat(b, i + 1, acc, migrated)
   ELSE LET ts == ParseSourceS(b.sources[i], b.split) IN
-       Concat(b, i + 1, acc \o [k \in 1..Len(ts) |-> Classified(b, b.sources[i], ts[k]) @@ [sid |-> i]])
-AllTxns(b) == Concat(b, 1, <<>>)
+       Concat(b, i + 1, acc \o [k \in 1..Len(ts) |-> ClassifiedG(b, b.sources[i], ts[k], migrated) @@ [sid |-> i]], migrated)
+AllTxns(b) == Concat(b, 1, <<>>, FALSE)
+\* what `tally up --migrate` reports on a budget that still uses the legacy CSV
+AllTxnsMigrating(b) == Concat(b, 1, <<>>, TRUE)
 
 \* ---- totals ---------------------------------------------------------------------
 Abs(x) == IF x < 0 THEN -x ELSE x
@@ -128,7 +134,10 @@ Report(b) ==
       ts == [k \in 1..Len(ts0) |-> ts0[k] @@ [shown |-> Shown(ts0, k)]] IN
   [txns |-> ts, flows |-> Flows(ts),
    perSource |-> [i \in Counted(b) |-> Len(ParseSourceS(b.sources[i], b.split))],
-   cfg |-> Eff(b)]
+   cfg |-> Eff(b),
+   \* the per-merchant classification of the migrating run (only for budgets on the legacy CSV)
+   migrating |-> IF Eff(b).rules # "csv" THEN <<>>
+                 ELSE LET tm == AllTxnsMigrating(b) IN [k \in 1..Len(tm) |-> [rule |-> tm[k].rule, shown |-> Shown(tm, k)]]]
 
 \* ---- C16: explain / discover are views of the same classification ------------------------
 \* a description and amount typed at the command line (not in any statement) is classified like a transaction would be
